@@ -186,7 +186,7 @@ impl Ctl {
             if st.free_run {
                 return;
             }
-            let ti = Self::task_idx(&mut st, task);
+            let ti = if p == hv::Point::Lock { u16::MAX } else { Self::task_idx(&mut st, task) };
             st.log.push(Ev::P(me as u16, ti, p as u8));
             match p {
                 hv::Point::PollBegin => {
